@@ -113,17 +113,22 @@ Notation exec_op := (exec_op o flags sv ctx).
 Notation pystep := (VMpy.step o flags sv ctx script).
 Notation corestep := (VMcore.step o flags sv ctx).
 
-(* p: opcodes above OP_16 with a handler-agreement lemma (under Inv); Inv: invariant of (stack, altstack) *)
+(* p: opcodes above OP_16 with a handler-agreement lemma (under Inv); Inv: invariant of (stack, altstack, script
+   code from the last executed OP_CODESEPARATOR on); D: a property of the not-yet-read script that GetOp keeps *)
 Variable p : byte -> bool.
-Variable Inv : list bytes -> list bytes -> Prop.
+Variable Inv : list bytes -> list bytes -> bytes -> Prop.
+Variable Dp : bytes -> Prop.
 Hypothesis exec_agree : forall op, p op = true -> (96 <? b2n op) = true -> is_disabled op = false ->
   forall s vf rest, cond_rel (st_cond s) vf -> rest = skipn (st_pc s) script -> (0 <= st_opc s)%Z ->
-  Inv (st_stack s) (st_alt s) ->
+  Inv (st_stack s) (st_alt s) (skipn (st_bch s) script) ->
   hres s (handler (hk (b2n op)) s) (exec_op op rest (c_all_if_true (st_cond s)) (abs s vf)).
-Hypothesis Inv_step : forall s s', Inv (st_stack s) (st_alt s) -> pystep s = VOk s' -> Inv (st_stack s') (st_alt s').
+Hypothesis D_step : forall rest op data rest', Dp rest -> get_op rest = Some (op, data, rest') -> Dp rest'.
+Hypothesis Inv_step : forall op data rest c c', Inv (e_stack c) (e_alt c) (e_bch c) -> Dp rest ->
+  corestep op data rest c = COk c' -> Inv (e_stack c') (e_alt c') (e_bch c').
 
 Lemma step_agree_high s vf ob r :
-  cond_rel (st_cond s) vf -> (0 <= st_opc s <= Z.of_N MAX_OP_COUNT)%Z -> Inv (st_stack s) (st_alt s) ->
+  cond_rel (st_cond s) vf -> (0 <= st_opc s <= Z.of_N MAX_OP_COUNT)%Z ->
+  Inv (st_stack s) (st_alt s) (skipn (st_bch s) script) ->
   skipn (st_pc s) script = ob :: r -> (96 <? b2n ob) = true -> p ob = true ->
   get_op (ob :: r) = Some (ob, [], r) /\ sres (pystep s) (corestep ob [] r (abs s vf)) r.
 Proof.
@@ -180,7 +185,8 @@ Proof.
 Qed.
 
 Lemma step_agree s vf ob r :
-  cond_rel (st_cond s) vf -> (0 <= st_opc s <= Z.of_N MAX_OP_COUNT)%Z -> Inv (st_stack s) (st_alt s) ->
+  cond_rel (st_cond s) vf -> (0 <= st_opc s <= Z.of_N MAX_OP_COUNT)%Z ->
+  Inv (st_stack s) (st_alt s) (skipn (st_bch s) script) ->
   skipn (st_pc s) script = ob :: r -> ((96 <? b2n ob) = true -> p ob = true) ->
   match get_op (ob :: r) with
   | None => pystep s = VFail
@@ -200,7 +206,8 @@ Notation pyrun := (VMpy.run o flags sv ctx script).
 Notation coreloop := (VMcore.eval_loop o flags sv ctx).
 
 Lemma run_agree fuel : forall s c,
-  sim s c -> Inv (st_stack s) (st_alt s) -> ops_ok p fuel (skipn (st_pc s) script) = true ->
+  sim s c -> Inv (st_stack s) (st_alt s) (skipn (st_bch s) script) -> Dp (skipn (st_pc s) script) ->
+  ops_ok p fuel (skipn (st_pc s) script) = true ->
   (length script - st_pc s <= fuel)%nat ->
   match pyrun fuel s, coreloop fuel (skipn (st_pc s) script) c with
   | VOk s', COk c' => sim s' c'
@@ -208,7 +215,7 @@ Lemma run_agree fuel : forall s c,
   | _, _ => False
   end.
 Proof.
-  induction fuel as [|f IH]; intros s c S HI Hok Hf.
+  induction fuel as [|f IH]; intros s c S HI HD Hok Hf.
   - assert (Hn : skipn (st_pc s) script = []) by (apply skipn_nil_iff; lia).
     cbn [VMpy.run]. rewrite Hn. replace (length script <=? st_pc s)%nat with true by lia. exact S.
   - cbn [VMpy.run].
@@ -224,30 +231,32 @@ Proof.
     { intros H96. revert Hok. cbn [get_op]. replace (78 <? b2n ob) with true by lia.
       intros Hok. apply andb_true_iff in Hok. tauto. }
     pose proof (step_agree s vf ob r R Ho HI Hs Hp) as H.
-    destruct (get_op (ob :: r)) as [[[op data] rest']|].
+    destruct (get_op (ob :: r)) as [[[op data] rest']|] eqn:Hg.
     2: { rewrite H. exact I. }
     apply andb_true_iff in Hok. destruct Hok as [_ Hok].
     pose proof (step_advances_pc o flags sv ctx script s) as Hadv.
-    pose proof (Inv_step s) as Hinv.
+    pose proof (Inv_step op data rest' (abs s vf)) as Hinv.
+    assert (HD' : Dp rest') by (eapply D_step; [exact HD|exact Hg]).
     destruct (pystep s) as [s'| |e|], (corestep op data rest' (abs s vf)) as [c'|e2|]; cbn in H; try contradiction;
       cbn [vbind cbind]; try exact I.
-    destruct H as [S' ->]. specialize (Hadv s' eq_refl).
-    apply IH; [exact S'|apply Hinv; [exact HI|reflexivity]|exact Hok|lia].
+    destruct H as [S' Er]. specialize (Hadv s' eq_refl). subst rest'.
+    apply IH; [exact S'| |exact HD'|exact Hok|lia].
+    destruct S' as (vf' & E' & _). specialize (Hinv c' HI HD' eq_refl). rewrite E' in Hinv. exact Hinv.
 Qed.
 
 (* VM.eval_script against EvalScript *)
 Theorem eval_agree st :
-  ops_ok p (length script) script = true -> Inv (rev st) [] ->
+  ops_ok p (length script) script = true -> Inv (rev st) [] script -> Dp script ->
   res_agree stack_eqb (VMpy.eval_script o flags sv ctx script st) (VMcore.EvalScript o flags sv ctx script st) = true.
 Proof.
-  intros Hok HI.
+  intros Hok HI HD.
   unfold VMpy.eval_script, VMcore.EvalScript, VMcore.EvalScriptE, eval_state, eval_script_e.
   unfold MAX_SCRIPT_LENGTH, MAX_SCRIPT_SIZE, len.
   destruct (10000 <? N.of_nat (length script)); [reflexivity|].
   set (c0 := {| e_stack := rev st; e_alt := []; e_vf := []; e_opc := 0; e_bch := script |}).
   assert (S0 : sim (init_state (rev st)) c0).
   { exists []. split; [reflexivity|]. split; [apply cond_rel_init|]. cbn. lia. }
-  pose proof (run_agree (length script) (init_state (rev st)) c0 S0 HI Hok ltac:(cbn; lia)) as H.
+  pose proof (run_agree (length script) (init_state (rev st)) c0 S0 HI HD Hok ltac:(cbn; lia)) as H.
   change (skipn (st_pc (init_state (rev st))) script) with script in H.
   destruct (pyrun (length script) (init_state (rev st))) as [s'| |e|],
            (coreloop (length script) script c0) as [c'|e2|]; try contradiction; cbn [vbind cbind to_vres res_agree];
@@ -268,10 +277,12 @@ Theorem eval_agree_no_sig o flags sv ctx script st :
   res_agree stack_eqb (VMpy.eval_script o flags sv ctx script st) (VMcore.EvalScript o flags sv ctx script st) = true.
 Proof.
   intros H1 Hc.
-  apply (eval_agree o flags sv ctx script (fun op => negb (is_sig_op op)) (fun _ _ => True)).
+  apply (eval_agree o flags sv ctx script (fun op => negb (is_sig_op op)) (fun _ _ _ => True) (fun _ => True)).
   - intros op Hp Hhi Hdis s vf rest R Hr _ _. apply exec_agree_basic; try assumption.
     destruct (is_sig_op op); [discriminate|reflexivity].
   - trivial.
+  - trivial.
   - exact Hc.
+  - exact I.
   - exact I.
 Qed.
